@@ -61,6 +61,9 @@ type World struct {
 	Sched *kernel.Sched
 	start time.Time
 	done  chan struct{}
+	// LastStall is the simulated time until which the scheduler last held back
+	// deliverable bytes or a parked goroutine while the clock advanced.
+	LastStall time.Duration
 }
 
 // Opts configures the server.
